@@ -12,7 +12,7 @@ LEVEL = "exploration"
 RULE = ("Cases: an initial collection (absent, empty, unsorted, with repeats incl. 1/1.0/True; for the map a dict, a list of pairs "
         "with repeated keys, an empty list or a generator) over ints (incl. >2**53), floats (incl. +-inf, -0.0) mixed, then a "
         "history of <=40 operations (set: add/discard/remove/pop/in/clear; map: store/delete/lookup/get/pop/popitem/setdefault/"
-        "update/in/clear) plus foreign-typed probes ('a', None, (1,), b'x', 1j, NaN). After every step iteration must be strictly "
+        "update/in/clear; store/setdefault/update of a key the map cannot order) plus foreign-typed probes ('a', None, (1,), b'x', 1j, NaN). After every step iteration must be strictly "
         "ascending and content, length, membership, lookup and KeyError behaviour equal a builtin set/dict driven by the same "
         "operations. Non-trivial: initial collection empty or with repeats, or >=3 successful mutations with mixed int/float "
         "values, or a foreign probe on a non-empty structure. Distinct = distinct case JSON.")
@@ -27,7 +27,7 @@ NUMS = [0, 1, -1, 2, 3, -3, 5, 2 ** 53, 2 ** 53 + 1, 2 ** 53 + 2, 0.5, -0.0, 1.0
 FOREIGN = ["a", None, (1,), b"x", 1j, float("nan")]
 SET_OPS = ["add", "add", "discard", "remove", "in", "pop", "probe", "add", "in", "clear", "discard-foreign"]
 MAP_OPS = ["set", "set", "del", "get", "in", "pop", "setdefault", "update", "probe", "popitem", "set", "get", "clear",
-           "del-foreign"]
+           "del-foreign", "store-foreign"]
 
 
 def dec_set(c):
@@ -45,6 +45,8 @@ def dec_map(c):
     x = c // len(MAP_OPS)
     if op in ("probe", "del-foreign"):
         return [op, x % len(FOREIGN)]
+    if op == "store-foreign":
+        return [op, x % len(FOREIGN), (x // len(FOREIGN)) % 3]
     if op in ("popitem", "clear"):
         return [op]
     k = NUMS[x % len(NUMS)]
@@ -197,7 +199,11 @@ def run_map(case, ctx):
     def observe(after):
         items = guard(ctx, "SortedMap/items", lambda: take(m.items(), len(ref) + 2))
         ks = guard(ctx, "SortedMap/iter", lambda: take(m, len(ref) + 2))
-        ok = items == sorted(ref.items()) and strictly_ascending(ks)
+        try:
+            ok = items == sorted(ref.items()) and strictly_ascending(ks)
+        except TypeError:   # only after an accepted store of a key that cannot be ordered against the others
+            ctx.fail("SortedMap/%s/holds-mutually-unorderable-keys" % after, "keys %r cannot be iterated in ascending order" % (ks,))
+            raise _Stop()
         if not ctx.need(ok, "SortedMap/%s/content-differs" % after,
                         lambda: "after %s items() gives %r, builtin dict gives %r" % (after, items, sorted(ref.items()))):
             raise _Stop()
@@ -276,6 +282,8 @@ def run_map(case, ctx):
             ref.clear()
         elif k == "probe":
             f = FOREIGN[o[1]]
+            if any(f is x for x in ref):   # accepted by an earlier store-foreign: no longer foreign to this map
+                continue
             r = guard(ctx, "SortedMap/in-foreign", lambda: f in m)
             ctx.need(r is False, "SortedMap/in-foreign/not-absent", lambda: "%r in m = %r" % (f, r))
             try:
@@ -292,15 +300,38 @@ def run_map(case, ctx):
             ctx.label("foreign-probe")
             if ref:
                 ctx.nontrivial = True
-        elif k == "del-foreign":
+        elif k == "store-foreign":
+            # a key the map cannot order (SortedMap validates keys in __setitem__): whichever way it is offered, either it is
+            # rejected and nothing changes, or it is accepted and the map keeps behaving like the dict that accepted it too
             f = FOREIGN[o[1]]
             try:
+                if o[2] == 0:
+                    m[f] = 7
+                elif o[2] == 1:
+                    m.setdefault(f, 7)
+                else:
+                    m.update([(f, 7)])
+                ref[f] = 7
+                ctx.label("foreign-store-accepted")
+            except Exception:  # noqa - rejection; observe() below compares with the unchanged reference
+                pass
+            ctx.label("foreign-mutation")
+            if ref:
+                ctx.nontrivial = True
+        elif k == "del-foreign":
+            f = FOREIGN[o[1]]
+            if any(f is x for x in ref):   # accepted by an earlier store-foreign: no longer foreign to this map
+                continue
+            deleted = False
+            try:
                 del m[f]
-                ctx.fail("SortedMap/del-foreign/deleted-something", "del m[%r] succeeded" % (f,))
+                deleted = True
             except (KeyError, TypeError):
                 pass
             except Exception as e:  # noqa
                 ctx.fail("SortedMap/del-foreign/exception-%s" % type(e).__name__, repr(e))
+            if deleted:
+                ctx.fail("SortedMap/del-foreign/deleted-something", "del m[%r] succeeded" % (f,))
             ctx.label("foreign-mutation")
         else:
             raise AssertionError(k)
